@@ -458,6 +458,7 @@ type PendRule struct {
 	SkipEdge func(from, to *ssa.BasicBlock) bool    // edges exempted from the rule (may be nil)
 	ExitOK   func(ret ssa.Instruction) bool         // exits that need no discharge (may be nil)
 	PhiOK    func(phiBlock, pred, succ *ssa.BasicBlock) bool // path-sensitive feasibility through phi-testing blocks (may be nil)
+	StartPending bool                               // the rule is pending at function entry (used for callee summaries)
 	AtExit   bool                                   // require discharge before every normal return
 	OnPanic  bool                                   // also require at Panic exits
 }
@@ -470,6 +471,9 @@ func RunPend(f *ssa.Function, r PendRule) []PathViolation {
 		return nil
 	}
 	in[f.Blocks[0]] = pendState{reach: true, pending: map[ssa.Instruction]bool{}}
+	if r.StartPending && len(f.Blocks[0].Instrs) > 0 {
+		in[f.Blocks[0]].pending[f.Blocks[0].Instrs[0]] = true
+	}
 	var viol []PathViolation
 	step := func(ins ssa.Instruction, st *pendState, report bool) {
 		if len(st.pending) > 0 && r.Forbid != nil && r.Forbid(ins) {
